@@ -563,14 +563,14 @@ class RandMaxVar(MaxVar):
         self.eps = np.percentile(gp.Y, self.quantile_eps * 100)
 
         def _evaluate_gradient_logpdf(theta):
-            denominator = self.evaluate(theta)
+            denominator = self.evaluate(theta).item()
             if denominator == 0:
                 return -np.inf
             pt_eval = self.evaluate_gradient(theta) / denominator
             return pt_eval.ravel()
 
         def _evaluate_logpdf(theta):
-            val_pdf = self.evaluate(theta)
+            val_pdf = self.evaluate(theta).item()
             if val_pdf == 0:
                 return -np.inf
             return np.log(val_pdf)
